@@ -319,6 +319,22 @@ class WrapRun:
             self._after(i, s, ts)
             self.stats.steps += 1
             return
+        if kind == "LOOKAHEAD":
+            # one-step lookahead program: the client's (concrete) state is closed over and only the candidate actions are mapped,
+            # vmap(lambda a: W.step(state, a))(candidates); every lane must equal W.step(state, candidate) asked the usual way.
+            # The run does not advance.
+            i, cands = int(seg[1]), seg[2]
+            st = self.cur[i]
+            bact = ws.act(np.asarray(cands))
+            bs, bts = self.guarded("vmap(lambda a: AutoResetWrapper.step(state, a))", lambda b: jax.vmap(lambda a: ws.W.step(st, a))(b), bact)
+            lanes = unstack(util.to_np((bs, bts)), len(cands))
+            for j, a in enumerate(cands):
+                one = util.to_np(self.guarded("AutoResetWrapper.step", ws.jit("w_step", ws.W.step), st, ws.act(a)))
+                d = util.tree_diff(lanes[j], one)
+                self.stats.check("lookahead_lanes_compared")
+                if d:
+                    self.fail("autoreset_vs_reference", "lookahead_lane_differs_from_step", f"client {i} candidate {j} (action {a}): {d}")
+            return
         if kind in ("JIT", "EAGER"):
             acts = seg[1]
             n_last = 0
@@ -514,6 +530,7 @@ def _generate(ws: WrapSys, mode: str, rng: np.random.Generator, B: int, stats: S
     weights = np.asarray([float(rng.integers(1, 4)) for _ in kinds])
     weights /= weights.sum()
     eager_left = 1 if (ws.adapter.name in EAGER_OK and rng.random() < 0.25 and mode == "C13") else 0
+    look_left = 1 if (ws.adapter.name in EAGER_OK and rng.random() < 0.3 and mode == "C13") else 0
 
     def actions_for_all() -> List[Any]:
         pat = rng.random()
@@ -529,7 +546,13 @@ def _generate(ws: WrapSys, mode: str, rng: np.random.Generator, B: int, stats: S
         kind = kinds[int(rng.choice(len(kinds), p=weights))]
         if eager_left and rng.random() < 0.1:
             kind, eager_left = "EAGER", 0
-        if kind == "SOLO":
+        elif look_left and rng.random() < 0.15:
+            kind, look_left = "LOOKAHEAD", 0
+        if kind == "LOOKAHEAD":
+            i = int(rng.integers(0, B))
+            cands = [choose_action(ws, util.to_np(run.cur[i]), run.cur_ts[i], rng, bool(j == 0 and rng.random() < 0.5), stats) for j in range(3)]
+            seg = ["LOOKAHEAD", i, cands]
+        elif kind == "SOLO":
             i = int(rng.integers(0, B))
             a = choose_action(ws, util.to_np(run.cur[i]), run.cur_ts[i], rng, bool(rng.random() < kill_rate), stats)
             seg = ["SOLO", i, a]
